@@ -43,7 +43,7 @@ ASSUMPTIONS = [
 ]
 REQUIRED = ["redirect_checked", "redirect_chained_checked", "cat_checked", "cat_merged",
             "cat_linked", "cat_translate", "cat_no_translate", "cat_flag_as_numpy_bool_or_int", "tap_redirect_tree", "tap_cat_tree"]
-FLOOR = {"quick": 2500, "thorough": 50000}
+FLOOR = {"quick": 2500, "thorough": 300000}
 SHARDS = {"quick": 8, "thorough": 16}
 
 TAG_B = 1_000_000
@@ -353,7 +353,7 @@ def run(ctx):
 
 def _workload(ctx):
     rng = ctx.rng
-    n_trees = ctx.scale(420, 9000)
+    n_trees = ctx.scale(420, 54000)
     for k in range(n_trees):
         rc = G.random_recipe(rng, max_n=G.size_ladder(ctx, k, 9, 30, 200),
                              extras=int(rng.integers(0, 3)))
